@@ -90,6 +90,9 @@ pub fn check(c: &Case, obs: &mut Obs) -> CheckResult {
     for &k in &offsets {
         let mut feed = c.feed.clone();
         feed.sched.fail_at = Some((k, c.kind));
+        // a glitch (end of input afterwards) at even offsets, a dead source (the error again) at odd ones
+        feed.sched.sticky = k % 2 == 1;
+        feed.sched.wrapped = k % 8 >= 6;
         let (f, log) = drivers::run(&spec, data.clone(), &feed, None, true);
         let delivered_error = log.terminal_returned && log.terminal_was_error;
         let describe = || {
